@@ -60,7 +60,13 @@ class Standardiser(PoolDecorator):
         supply = self.target.supply
         by_supply = _clamp(supply - self.backlog, value, supply + self.surplus)
         by_limits = _clamp(self.minimum, by_supply, self.maximum)
-        return type(value)(by_limits)
+        # restore the type of ``value`` only if this does not move it off a limit:
+        # ``int(10.5)`` would undercut a minimum of 10.5, ``int(inf)`` cannot exist
+        try:
+            typed = type(value)(by_limits)
+        except (OverflowError, ValueError):
+            return by_limits
+        return typed if typed == by_limits else by_limits
 
     def __init__(
         self,
